@@ -236,6 +236,17 @@ def fresh_value_scenarios():
             arms = ("%s => 9, " % hi2 if first_literal else "") + "%s..%s => 1, %s..=%s => 2, _ => 0" % (lo1, hi1, lo2, hi2)
             probes = [(lo1, 1), (mid1, 1), (hi1, 0), (lo2, 2), (mid2, 2), (hi2, 9 if first_literal else 2)]
             out.append(("fn cls(v) { match v { %s } } " % arms + " ".join("push(__o, cls(%s));" % v for v, _ in probes), [str(e) for _, e in probes]))
+    # the compile-time rules inside filter patterns and actions: an action is not a function body (no return), loops and
+    # functions written inside it follow the ordinary rules
+    for t in ("@ true { return; }", "@ true { return 1; }", "@ end { return; }", "@ { if true { return 2; } }", "@ true { while true { return; } }",
+              "@ true { { return; } }", "@ true { match 1 { 1 => { return; }, _ => { } } }", "@ true { break; }", "@ end { continue; }", "@ true { zz_undefined; }",
+              "@ zz_undefined", "@ zz_undefined { 1; }", "@ true { loop { break nolabel; } }", "@ true { let f = fn() { break; }; }", "@ end { fn g() { continue; } }",
+              "let f = fn() { 1 }; @ true { f(); return; }"):
+        out.append((t, "compile_error"))
+    for t in ("@ true { let f = fn() { return 1; }; f(); }", "@ end { fn g() { return 2; } g(); }", "@ true { while true { break; } }", "@ true { loop { break; } }",
+              "@ true { let i = 0; outer: while i < 2 { i = i + 1; loop { continue outer; } } }", "@ true { fn h(x) { if x { return 1; } 2 } h(0); }",
+              "fn top() { return 5; } @ top() == 5 { top(); }"):
+        out.append((t, []))
     CP = "fn cp(x) { let c = []; let i = 0; while i < len(x) { push(c, x[i]); i = i + 1; } c } "
     return [(CP + t, e) for t, e in out]
 
@@ -250,7 +261,7 @@ def run(chk):
     chk.assumptions = ["gen.py's definitional evaluator is the reference semantics (DESIGN.md section 4); evaluations that reach an "
                        "unspecified corner are discarded and counted", "names are unique per program here (shadowing is C04's workload)"]
     chk.floor = 1500
-    chk.rule += '; plus hand-written scenarios (recursion through helper closures, fresh-value semantics of array + and of literals, capture-then-shadow, functions made in top-level blocks called after later definitions, == / != on containers of different sizes, match over two ranges of every kind that has ranges)'
+    chk.rule += '; plus hand-written scenarios (recursion through helper closures, fresh-value semantics of array + and of literals, capture-then-shadow, functions made in top-level blocks called after later definitions, == / != on containers of different sizes, match over two ranges of every kind that has ranges, the compile-time rules (return, break, continue, undefined names) inside filter patterns and actions)'
     n = 4000 if quick else 150000
     jobs = []
     unspec = {}
